@@ -349,6 +349,13 @@ func roundTrip(c *runner.Ctx, in work.Input, path, encoder string, x []byte, d *
 			c.Count("decode_panics_left_to_C04", 1)
 			return
 		}
+		if s.sizeChanged && strings.Contains(dy.Err.Error(), "offset from saio") {
+			// a size normalisation (N1/N3) moved the senc data, and the saio box in
+			// the same fragment holds its byte offset, which no normalisation of
+			// another box can keep up to date: the re-decode clause is undecidable
+			c.Inconclusive("size normalisation in front of a saio-referenced senc (stale byte offset in saio)")
+			return
+		}
 		c.Violation(fmt.Sprintf("redecode-fails/%s/%s", normsUsed(s), errClass(dy.Err)),
 			fmt.Sprintf("%s accepted x, %s gave y (differences all in the don't-care list: %s), but %s rejects y: %v\nseed %s, mutation: %s", path, encoder, explainedStr(s), path, dy.Err, in.Name, in.Desc), det(y))
 		return
@@ -364,6 +371,12 @@ func roundTrip(c *runner.Ctx, in work.Input, path, encoder string, x []byte, d *
 		}
 	}
 	if diffs := treecmp.Diff(d0.Obj(), dy.Obj(), opt); len(diffs) > 0 {
+		if kp := treecmp.KeyPath(diffs); s.sizeChanged && bytes.Contains(x, []byte("sidx")) && strings.HasPrefix(kp, "(File).Segments") {
+			// the grouping into segments follows the byte offsets stored in a
+			// top-level sidx; a size normalisation of another box makes them stale
+			c.Inconclusive("size normalisation in a file whose segments are delimited by sidx byte offsets")
+			return
+		}
 		c.Violation(fmt.Sprintf("redecode-differs/%s", treecmp.KeyPath(diffs)),
 			fmt.Sprintf("%s + %s: P(y) is not structurally equal to P(x) (y differs from x only in listed positions: %s): %s\nseed %s, mutation: %s", path, encoder, explainedStr(s), strings.Join(diffs, "; "), in.Name, in.Desc), det(y))
 		return
